@@ -291,8 +291,9 @@ Definition stream_case (l : list N) : option (list N) :=
     let? '(pb, l) := dec_prog 8 l in
     let? '(pc, l) := dec_prog 7 l in
     let? '(pd, l) := dec_prog 8 l in
+    if (plen <? 256) && existsb (fun '(k, _, _) => k =? 8) (pb ++ pd) then None else
     match l with
-    | [99999] => None
+    | [99999] => Some (illegal O 99999)   (* the model accepts the case, the harness rejected it *)
     | _ =>
       let c := mks drv (nn plen) seed pa pb pc pd in
       match dec_transcript l with
@@ -439,7 +440,8 @@ Definition dgram_case (l : list N) : option (list N) :=
     if negb ((drv <=? 1) && (tr <=? 2) && (1 <=? plen) && (plen <=? 65536) && (1 <=? psize) && (psize <=? 64)
              && (seed <=? 60000) && (1 <=? nsend) && (nsend <=? 4) && (1 <=? window) && (window <=? 8)
              && (n <=? 64) && (mkind <=? 3) && (mcount <=? n)
-             && (Bool.eqb (mkind =? 0) (mcount =? 0)) && ((mkind =? 0) || (tr =? 0)))
+             && (Bool.eqb (mkind =? 0) (mcount =? 0)) && ((mkind =? 0) || (tr =? 0))
+             && ((mkind <=? 1) || (256 <=? plen)))
     then None else
     let? '(ds, l) := dec_dgs (nn n) l in
     if negb (forallb (fun g => (g_size g <=? 60000) && (g_cap g <=? 70000) && (g_sender g <? nsend)
@@ -449,7 +451,7 @@ Definition dgram_case (l : list N) : option (list N) :=
                                && negb ((g_flags g =? 1) && (tr =? 0))) ds)
     then None else
     match l with
-    | [99999] => None
+    | [99999] => Some (illegal O 99999)   (* the model accepts the case, the harness rejected it *)
     | _ =>
       let c := mkg drv tr (nn plen) seed ds in
       match dec_transcript l with
@@ -472,7 +474,7 @@ Definition accept_case (l : list N) : option (list N) :=
     if negb ((drv <=? 1) && (tr <=? 1) && (1 <=? k) && (k <=? 24) && (1 <=? mode) && (mode <=? 3) && (j <=? k))
     then None else
     match l with
-    | [99999] => None
+    | [99999] => Some (illegal O 99999)   (* the model accepts the case, the harness rejected it *)
     | _ =>
       match dec_transcript l with
       | None => Some l
